@@ -31,7 +31,7 @@ def run(ctx):
     ctx.rule = ('N enumerated exhaustively on [0, M]; plus s-1, s, s+1 and random interior points of the gap for '
                 '7-smooth s < 2^62; a case is non-trivial when N > 10 (the loops run); distinct by N. '
                 'fast_len cases: signal class x length x start time.')
-    ctx.trusted = ['Coq 8.16.1 kernel (coqc; vm_compute for Examples and case evaluation)',
+    ctx.trusted = ['translator T6 translate/py_shift2coq.py (fast_len is a time slice with generated bounds)', 'Coq 8.16.1 kernel (coqc; vm_compute for Examples and case evaluation)',
                    'translator T1 translate/py_int2coq.py (Python ast -> Gallina over Z; lru_cache dropped: pure function)',
                    'this harness (generators, comparison), CPython int = Z']
     ctx.assumptions = ['Python int arithmetic is unbounded integer arithmetic (Z)',
